@@ -173,6 +173,11 @@ class Dim:
             return W.decide(f"{self} {op} {o2}", {"<": False, "<=": False, ">": gt, ">=": True}[op])
         if self.is_const() and self.const() <= 1 and _b.all(c > 0 for c, s in o2.terms):
             return W.decide(f"{self} {op} {o2}", {"<": True, "<=": True, ">": False, ">=": False}[op])
+        # generic sorts stand for sizes >= 2
+        if o2.is_const() and o2.const() == 2 and _b.all(c > 0 for c, s in self.terms) and op in (">=", "<"):
+            return W.decide(f"{self} {op} {o2}", op == ">=")
+        if self.is_const() and self.const() == 2 and _b.all(c > 0 for c, s in o2.terms) and op in ("<=", ">"):
+            return W.decide(f"{self} {op} {o2}", op == "<=")
         key = (repr(self), repr(o2))
         if W is not None and key in W.order:
             gt = W.order[key]
@@ -1426,6 +1431,12 @@ def array(x, dtype=None):
         return x
     if isinstance(x, (int, float)):
         return _lift(x)
+    if isinstance(x, (list, tuple)) and x and _b.all(isinstance(k, int) and not isinstance(k, bool) for k in x):
+        # literal index list: addresses whole parts of a block axis whose parts have size one (e.g. the 2-vector (g, h))
+        r = IndexArr("parts", parts=list(x), size=None)
+        r.of = None
+        r.literal = True
+        return r
     raise ShimUnsupported("jnp.array of a Python container")
 
 
